@@ -85,6 +85,8 @@ def configs(rng, tier):
     out.append({"components": [dev("qs"), dev("qk", {"i": ["qs", "o"]})]})
     out.append({"components": [dev("qa"), {"name": "qsys", "kind": "sys", "inputs": {"x": ["qa", "o"]}, "expose": {"y": ["qi", "o"]},
                                            "components": [dev("qi", {"i": ["external", "x"]}), dev("qj")]}, dev("qz", {"i": ["qsys", "y"]})]})
+    # at the TOP level "external" and "expose" are ordinary component names (only inside a system simulation are they taken)
+    out.append({"components": [dev("external", cb={"kind": "period", "p": P}), dev("expose", {"i": ["external", "o"]}), dev("plain", {"i": ["expose", "o"]})]})
     # independent devices (no wire between them), nothing asks for a callback
     out.append({"components": [dev("ia"), dev("ib"), dev("ic", {"i": ["ia", "o"]}), dev("id", {"i": ["ib", "o"]})]})
     if tier == "thorough":
